@@ -295,8 +295,38 @@ def run(prog, rep):
                     ok5, msg5 = False, "line %d: the callback is invoked on a path where a stop request is not excluded" % line(n)
         if not any(k == "cb" for (k, f, n) in events):
             ok5, msg5 = False, "the callback is never invoked"
+    # in-order direction: the predecessor search starts at the left child and follows right links;
+    # after a visit the cursor moves right; the thread link is stored in a right link (checked above)
+    okd, msgd = True, ""
+    starts = [n for (b, i, n) in fe.nodes() if n["k"] == "asg" and strip_casts(n["l"])["k"] == "ref" and strip_casts(n["r"]) is not None
+              and strip_casts(n["r"])["k"] == "member" and root_var(n["r"]) != root_var(n["l"])]
+    pred_start = [n for n in starts if strip_casts(n["r"])["field"] == "left" and thread and root_var(n["l"]) == root_var(thread[0][2]["l"])]
+    if not pred_start:
+        okd, msgd = False, "the predecessor search does not start at the left child of the current node"
+    walks = [n for (b, i, n) in fe.nodes() if n["k"] == "asg" and strip_casts(n["l"])["k"] == "ref" and strip_casts(n["r"]) is not None
+             and strip_casts(n["r"])["k"] == "member" and root_var(n["r"]) == root_var(n["l"])]
+    predv = root_var(thread[0][2]["l"]) if thread else None
+    for n in walks:
+        if root_var(n["l"]) == predv and strip_casts(n["r"])["field"] != "right":
+            okd, msgd = False, "line %d: the predecessor search follows %s links" % (line(n), strip_casts(n["r"])["field"])
+    # cursor moves: after a callback in the same block the cursor goes right
+    for b in fe.blocks.values():
+        has_cb = any(c.get("callee") is None for s_ in b.stmts for c in calls(s_))
+    cur_moves = [n for n in walks if root_var(n["l"]) != predv]
+    fields = sorted(set(strip_casts(n["r"])["field"] for n in cur_moves))
+    if fields != ["left", "right"]:
+        okd, msgd = False, msgd or "the traversal cursor moves only along %s" % fields
+    # the cursor goes left exactly in the block that stores the thread link
+    for n in cur_moves:
+        blk = [b for (b, i, x) in fe.nodes() if x is n][0]
+        in_thread_block = thread and blk.id == thread[0][0].id
+        if strip_casts(n["r"])["field"] == "left" and not in_thread_block:
+            okd, msgd = False, "line %d: the cursor descends left without threading the predecessor" % line(n)
+        if strip_casts(n["r"])["field"] == "right" and in_thread_block:
+            okd, msgd = False, "line %d: the cursor moves right in the block that threads the predecessor (pairs would be visited in descending order or skipped)" % line(n)
+    rep.ob("C12.5", fe, "direction", okd, "in-order: predecessor = rightmost node of the left subtree; visit, then move right; descend left only after threading" if okd else msgd, fe.loc[0])
     rep.ob("C12.5", fe, "threads", ok5, "thread/unthread are counted on %s; early return only with the counter zero; no callback after a stop request" % counter if ok5 else msg5, fe.loc[0])
-    rep.floor("C12.5", 1)
+    rep.floor("C12.5", 2)
 
 
 SELFTEST = [
@@ -316,6 +346,9 @@ SELFTEST = [
     dict(id="foreach-callback-after-stop", file="src/ptree.c", expect="C12.5",
          old="\t\t\tif (need_stop == FALSE)\n\t\t\t\tneed_stop = traverse_func (cur_node->key,\n\t\t\t\t\t\t\t   cur_node->value,\n\t\t\t\t\t\t\t   user_data);\n\n\t\t\tcur_node = cur_node->right;\n\t\t} else {",
          new="\t\t\tneed_stop = traverse_func (cur_node->key,\n\t\t\t\t\t\t   cur_node->value,\n\t\t\t\t\t\t   user_data);\n\n\t\t\tcur_node = cur_node->right;\n\t\t} else {"),
+    dict(id="foreach-mirror", file="src/ptree.c", expect="C12.5", count=1,
+         old="\t\t\tprev_node = cur_node->left;\n\n\t\t\twhile (prev_node->right != NULL && prev_node->right != cur_node)\n\t\t\t\tprev_node = prev_node->right;",
+         new="\t\t\tprev_node = cur_node->left;\n\n\t\t\twhile (prev_node->right != NULL && prev_node->right != cur_node)\n\t\t\t\tprev_node = prev_node->left;"),
     dict(id="clear-forgets-count", file="src/ptree.c", expect="C12.4",
          old="\t\t\ttree->free_node_func (cur_node);\n\t\t\t--tree->nnodes;", new="\t\t\ttree->free_node_func (cur_node);"),
     dict(id="dispatch-mixed-variant", file="src/ptree.c", expect="C12.1",
